@@ -48,7 +48,7 @@ CHECKS = {
          "6/C16"),
  "C09": ("model_checking",
          "TLC enumeration of all sequences of distinct rewrite symbols with the TLA+ Effective/Disables meaning; replay into DNSRewrites directly and through the DNS engine; TLC trace validation of random long lists",
-         "spec/Rewrites.tla defines Disables by cases and Effective with a quantifier over all positions (so the position of an exception cannot matter), plus the two-pass algorithm and, as a named deviation, the index-skipping loop of the pinned tree. TLC enumerates every sequence of distinct symbols up to length 5 (quick) / 6 (thorough) over seeded 8-symbol cores and up to length 2/3 over the full 50-symbol alphabet, checks NoException, PositionFree, LoopAgrees and ImportantSafe, and each sequence is replayed through DNSResult.DNSRewrites (direct construction, exact order) and DNSEngine.MatchRequest; compared as sequences of rule texts against Effective of what DNSRewritesAll returned. Random lists up to length 20 with values outside the table are validated by Trace_Rewrites.",
+         "spec/Rewrites.tla defines Disables by cases and Effective with a quantifier over all positions (so the position of an exception cannot matter), plus the two-pass algorithm and, as a named deviation, the index-skipping loop of the pinned tree. TLC enumerates every sequence of distinct symbols up to length 5 (quick) / 6 (thorough) over seeded 8-symbol cores and up to length 2/3 over the full 70-symbol alphabet (18 values x important x exception), checks NoException, PositionFree, LoopAgrees and ImportantSafe, and each sequence is replayed through DNSResult.DNSRewrites (direct construction, exact order) and DNSEngine.MatchRequest; compared as sequences of rule texts against Effective of what DNSRewritesAll returned. Random lists up to length 20 with values outside the table are validated by Trace_Rewrites.",
          "Trusted: TLC; the symbol table is cross-checked against the parsed DNSRewrite fields and the value partition against reflect.DeepEqual. Empty-valued is defined on the parsed value.",
          "6/C09"),
  "C10": ("model_checking",
@@ -73,7 +73,7 @@ CHECKS = {
          "6/C20"),
  "C15": ("model_checking",
          "TLC enumeration of rule sets x hostnames x option flags with the TLA+ cosmetic meaning (sub-domain and wildcard-TLD semantics, exceptions); replay through CosmeticEngine.Match and Engine.GetCosmeticResult",
-         "spec/Cosmetic.tla defines which element-hiding rules apply to a hostname (listed domains and their sub-domains, wildcard TLD through PSL answers, excluded domains), which are cancelled by an applicable exception with the same selector, and how the CSS / generic-CSS flags filter and file the selectors. TLC enumerates every set of up to 3 (quick) / 5 (thorough) rules of a 16-rule pool on 7 hostnames and checks FlagsOK and SubdomainsCovered; each set is loaded in seeded order/splits into the real engines and all 8 flag combinations are compared as selector sets.",
+         "spec/Cosmetic.tla defines which element-hiding rules apply to a hostname (listed domains and their sub-domains, wildcard TLD through PSL answers, excluded domains), which are cancelled by an applicable exception with the same selector, and how the CSS / generic-CSS flags filter and file the selectors. TLC enumerates every set of up to 3 (quick) / 5 (thorough) rules of an 18-rule pool on 10 hostnames and checks FlagsOK and SubdomainsCovered; each set is loaded in seeded order/splits into the real engines and all 8 flag combinations are compared as selector sets.",
          "Trusted: TLC, the renderer (cross-checked against NewCosmeticRule's fields); the model's PSL is checked against the real list on every host.",
          "6/C15"),
  "C11": ("model_checking",
@@ -93,7 +93,7 @@ CHECKS = {
          "6/C01"),
  "C02": ("model_checking",
          "TLC enumeration of rule/hosts-entry sets with the TLA+ reference resolution (host-level filter, Rule!Match, DNS verdict, hashed host table with REAL colliding hostnames); replay through NewDNSEngine/MatchRequest",
-         "spec/DNSEngine.tla defines the reference answer over ALL entries of the lists (DNS-applicable rules that match via Rule!Match and Rule!HostLevel, Verdict!DNSClass, hosts entries naming the host split by family, matched flag) and the hashed host table with its name re-check; TLC enumerates every set of up to 3 (quick) / 4 (thorough) entries of a 24-entry pool against 40 requests, with the real djb2 values of the hostnames (two of which genuinely collide), checks HostTableOK and emits the answers; every set is loaded in seeded order/splits into the real DNSEngine and NetworkRules, the class and admissibility of the basic rule, both host groups and the matched flag are compared.",
+         "spec/DNSEngine.tla defines the reference answer over ALL entries of the lists (DNS-applicable rules that match via Rule!Match and Rule!HostLevel, Verdict!DNSClass, hosts entries naming the host split by family, matched flag) and the hashed host table with its name re-check; TLC enumerates every set of up to 3 (quick) / 4 (thorough) entries of a 41-entry pool against 48 requests, with the real djb2 values of the hostnames (two of which genuinely collide), checks HostTableOK and emits the answers; every set is loaded in seeded order/splits into the real DNSEngine and NetworkRules, the class and admissibility of the basic rule, both host groups and the matched flag are compared.",
          "Trusted: TLC, the renderer (cross-checked against the parsed rules). Which of several equal-class rules is reported is not compared.",
          "6/C02"),
  "C13": ("model_checking",
